@@ -305,6 +305,10 @@ pub struct Shared {
     pub vectored_writes: usize,
     error_kind: u8,
     write_zero: bool,
+    /// "polls without bound" = more polls than any legitimate run of this script can need: 5 million
+    /// plus 300 per byte of the pictures on offer (a picture served one byte per reply to two callers
+    /// under one-byte reads costs ~100 polls per byte and caller)
+    poll_bound: u64,
 }
 
 pub type Handle = Arc<Mutex<Shared>>;
@@ -742,7 +746,7 @@ impl AsyncRead for SimIo {
         let mut s = self.0.lock().unwrap();
         s.polls += 1;
         s.tick();
-        if s.polls > 5_000_000 {
+        if s.polls > s.poll_bound {
             return Poll::Ready(Err(io::Error::other("harness: poll bound exceeded")));
         }
         if let Some(k) = s.read_err_at {
@@ -796,8 +800,8 @@ impl AsyncWrite for SimIo {
         s.tick();
         // a client that keeps writing without bound (no script makes it send more than a few hundred
         // KB) is cut off the same way as one that polls without bound
-        if s.polls > 5_000_000 || s.all_written.len() > (64 << 20) {
-            s.polls = s.polls.max(5_000_001);
+        if s.polls > s.poll_bound || s.all_written.len() > (64 << 20) {
+            s.polls = s.polls.max(s.poll_bound + 1);
             return Poll::Ready(Err(io::Error::other("harness: poll bound exceeded")));
         }
         if s.write_stalled {
@@ -978,6 +982,14 @@ pub fn new_io(script: &Script, password: Option<Password>) -> (SimIo, Handle) {
         vectored_writes: 0,
         error_kind: script.error_kind,
         write_zero: false,
+        poll_bound: 5_000_000
+            + script.picture.as_ref().map_or(0, |p| {
+                let len = |s: &PicSource| match s {
+                    PicSource::Present(pic) => pic.bytes.0.len() as u64,
+                    _ => 0,
+                };
+                300 * (len(&p.embedded) + len(&p.cover))
+            }),
     };
     let h = Arc::new(Mutex::new(shared));
     {
@@ -1521,7 +1533,7 @@ fn finish(obs: &mut Observation, h: &Handle) {
     obs.written = s.all_written.clone();
     obs.outbox = s.outbox.clone();
     obs.io_dropped = s.dropped;
-    obs.poll_bound_exceeded = s.polls > 5_000_000;
+    obs.poll_bound_exceeded = s.polls > s.poll_bound;
     obs.unterminated_client_output = s.inbox.clone();
     obs.final_read_pos = s.read_pos;
     obs.eof_at = s.eof_at;
